@@ -153,6 +153,18 @@ def o_interrupt(rec, world, hist):
             out.append(O.V("work-after-interrupt", f"after the interrupt reached the caller, worker(s) {bad} started more "
                                                    f"than one further call", **tags))
             return out
+    # calls already executing run to completion: none of them ends with the caller's KeyboardInterrupt
+    injected_ki = {int(k) for k, f in ((rec.op.get("faults") or {}).get("calls") or {}).items()
+                   if f.get("exc") == "KeyboardInterrupt"}
+    for ev in rec.events:
+        if ev[3] == "call-end" and ev[6] != "ok" and ev[7] == "KeyboardInterrupt" and ev[4] not in injected_ki:
+            out.append(O.V("call-interrupted", f"the caller's KeyboardInterrupt was raised inside call {ev[4]} while it was "
+                                               f"executing: the call did not run to completion", **tags))
+            return out
+        if ev[3] == "store-end" and ev[7] != "ok" and ev[8] == "KeyboardInterrupt":
+            out.append(O.V("call-interrupted", f"the caller's KeyboardInterrupt was raised inside store operation "
+                                               f"{ev[4]} {ev[5]} while it was executing", **tags))
+            return out
     # every started call ran to completion, before run returned
     for nid, sts in ix.starts.items():
         if len(ix.ends.get(nid, ())) != len(sts):
